@@ -8,9 +8,10 @@ PROP = {
     'checker_vo': 'crash/CrashCheck.vo',
     'scenario': 'c08',
     'evals': ['agrees', 'c08_ok'],
-    # strict-atomic 1: the "atomic alike" clause counts (finding F08a must then be in known_findings.json);
-    # strict 1: the other candidate finding classes count (F08b, F08c, F08d, F08e, F11c - see the report).
-    'extra': {'quick': {'strict-atomic': 0, 'strict': 0}, 'thorough': {'strict-atomic': 0, 'strict': 0, 'plan': 'all'}},
+    # strict-atomic 1: the "atomic alike" clause counts (known finding F08a);
+    # strict 1: the divergence classes count (known findings F08b, F08c, F08d, F08e); anything else is a VIOLATION.
+    # (F11c - stale rsync old/ directory - is repaired in /repo by e1f99c61 and must not occur.)
+    'extra': {'quick': {'strict-atomic': 1, 'strict': 1}, 'thorough': {'strict-atomic': 1, 'strict': 1, 'plan': 'all'}},
     'harness_timeout': 6000,
     'replay_header': C08_HEADER,
     'replay_footer': "Eval vm_compute in (failing agrees base_index cases).\nEval vm_compute in (failing c08_ok base_index cases).",
@@ -29,8 +30,8 @@ PROP = {
 }
 
 META = {
-    'text': 'Theorems (Coq, closed) over a model of one event-sourced CA (generic store of C06), its published-object store written by the pre-save listener, and the task queue, with the mutation order of the code (listener write, task-queue deletes/stores, command store, best-effort post-save task writes, cache update): for EVERY operation kind and EVERY cut index the cut state exists, the restarted system loads and what it loads is the replay of the surviving log; any history of operations, crashes, single failing writes and restarts only ever extends the log, so an acknowledged command is never lost; one failing write before/at the command store leaves log, snapshot and cache untouched and exactly the first n listed side effects; with one failing write log and cache move together; resubmission after such a fault reproduces log, cache, observable objects and task names of the fault-free run provided the listener is idempotent on its own output. The clause "log, memory and published-object set alike" is REFUTED (witness: ROA update cut after the listener write: ROA and SyncRepo task without logged command) and proved outside that window; the listener is proved NOT idempotent for key-roll activation (the command can never be stored after such a cut). Small models of the WAL snapshot and of the rsync directory switch (stuck old/ directory). Tie: on disk storage, for each operation kind in several key/roll/publication states, the real code is cut at EVERY mutation in crash mode (abort in a worker subprocess, fresh runtime) and failed-write mode; the recorded mutation trace must equal the trace the model derives from the events read back from the audit log and the regenerated event->task tables, the cut run must be its prefix, and the commands present after the cut must be what the prefix predicts (including the drop-class self-healing command); oracle: everything loads, acknowledged commands present, manifests/CRLs decode and list exactly the published objects, RRDP files consistent, state after pump + resubmit + pump + periodic work equals the crash-free twin.',
+    'text': 'Theorems (Coq, closed) over a model of one event-sourced CA (generic store of C06), its published-object store written by the pre-save listener, and the task queue, with the mutation order of the code (listener write, task-queue deletes/stores, command store, best-effort post-save task writes, cache update): for EVERY operation kind and EVERY cut index the cut state exists, the restarted system loads and what it loads is the replay of the surviving log; any history of operations, crashes, single failing writes and restarts only ever extends the log, so an acknowledged command is never lost; one failing write before/at the command store leaves log, snapshot and cache untouched and exactly the first n listed side effects; with one failing write log and cache move together; resubmission after such a fault reproduces log, cache, observable objects and task names of the fault-free run provided the listener is idempotent on its own output. The clause "log, memory and published-object set alike" is REFUTED (witness: ROA update cut after the listener write: ROA and SyncRepo task without logged command) and proved outside that window; the listener is proved NOT idempotent for key-roll activation (the command can never be stored after such a cut). Small models of the WAL snapshot and of the rsync directory switch (repaired switch: the next write succeeds after any cut; pinned switch: stuck old/ directory, regression witness). Tie: on disk storage, for each operation kind in several key/roll/publication states, the real code is cut at EVERY mutation in crash mode (abort in a worker subprocess, fresh runtime) and failed-write mode; the recorded mutation trace must equal the trace the model derives from the events read back from the audit log and the regenerated event->task tables, the cut run must be its prefix, and the commands present after the cut must be what the prefix predicts (including the drop-class self-healing command); oracle: everything loads, acknowledged commands present, manifests/CRLs decode and list exactly the published objects, RRDP files consistent, state after pump + resubmit + pump + periodic work equals the crash-free twin.',
     'design_ref': 'DESIGN.md section 5 C08, 4.2 (crash emulation), 6 (F08a, F11c)',
-    'note': 'Trusted: Coq kernel + vm_compute; storage probe (hooks commit 7b278981); harness c08.rs (observation, canonicalisation, trace segmentation); t_queue translator. Modelled not verified: execute_opt_command order (store.rs:444-481), CaObjectsStore::with_ca_objects, Queue::schedule_task delete-then-store, TaskQueue pre/post-save, WalStore snapshot, RsyncdStore::write. Outside: torn writes inside one mutation, kernel durability ordering, RRDP delta/snapshot files being written non-atomically before they are referenced (C11), remote (HTTP) parents and repositories. Default strict flags are 0: candidate finding classes (F08a objects ahead of the log; key-roll activation wedged; revocation not retryable; key roll abandoned by class drop; recurring task lost by a failing queue store; rsync old/ directory blocks writes) are reported in the evidence with concrete cuts but do not fail the check until known_findings.json lists them.',
+    'note': 'Trusted: Coq kernel + vm_compute; storage probe (hooks commit 7b278981); harness c08.rs (observation, canonicalisation, trace segmentation); t_queue translator. Modelled not verified: execute_opt_command order (store.rs:444-481), CaObjectsStore::with_ca_objects, Queue::schedule_task delete-then-store, TaskQueue pre/post-save, WalStore snapshot, RsyncdStore::write. Outside: torn writes inside one mutation, kernel durability ordering, RRDP delta/snapshot files being written non-atomically before they are referenced (C11), remote (HTTP) parents and repositories. Strict flags are 1: objects ahead of the log (F08a), key-roll activation wedged (F08b), recurring task lost by a failing queue store (F08c), revocation not retryable (F08d), key roll abandoned by class drop (F08e) fail the oracle and are matched against known_findings.json by the `symptom` (and `cut_class`) of the record; any other divergence is a VIOLATION. The stale rsync old/ directory (F11c) is repaired by e1f99c61: the model has the repaired switch (next write succeeds after any cut) and keeps the pinned switch as regression witness.',
     'technique': 'Coq proof over mutation traces (induction over steps/histories) + refutation by witness + exhaustive cut enumeration on the real code (crash in subprocess / injected failing write) evaluated in Coq against the model',
 }
